@@ -27,7 +27,7 @@ from oracle import storemodel as M
 from props import storecommon as S
 
 NAV_ROUTES = ["composite", "composite", "env", "store", "source"]
-REL_TYPES = ["uses", "indicates", "targets"]
+REL_TYPES = ["uses", "indicates", "targets", ""]      # the empty string is a storable relationship_type, and a value like any other
 ABSENT_NODE = G.oid("campaign", 0x99)
 
 
@@ -262,7 +262,7 @@ class World(object):
         sub = self.subject(route, order)
         arg, xid = self._nav_arg(pr)
         kw = {}
-        if pr.get("rtype"):
+        if pr.get("rtype") is not None:
             kw["relationship_type"] = pr["rtype"]
         if pr.get("so"):
             kw["source_only"] = True
@@ -538,7 +538,9 @@ def analyse(case):
             cl.add("argform:" + ("absent-id" if pr.get("x", 0) < 0 else pr.get("argform", "id")))
         if pr["p"] in ("rels", "related"):
             cl.add("nav:" + ("both-flags" if pr.get("so") and pr.get("to") else "source_only" if pr.get("so") else "target_only" if pr.get("to") else "both-directions"))
-            cl.add("nav:relationship_type" if pr.get("rtype") else "nav:any-type")
+            cl.add("nav:relationship_type" if pr.get("rtype") is not None else "nav:any-type")
+            if pr.get("rtype") == "":
+                cl.add("nav:relationship_type-empty")
             if pr.get("filters"):
                 cl.add("nav:extra-filters")
         if pr["p"] == "query":
